@@ -107,17 +107,21 @@ func fabricateErr(m map[string]string) error {
 	if on("canc") {
 		inner = context.Canceled
 	}
+	if on("dl") {
+		// what net/http's own per-attempt time-outs look like to errors.Is
+		inner = fmt.Errorf("net/http: timeout awaiting response headers: %w", context.DeadlineExceeded)
+	}
 	if on("url") {
 		u := "http://host/path"
 		if on("cert") {
 			u = "http://host/certificate is not trusted"
 		}
-		if on("us") && (on("ua") || on("canc")) {
+		if on("us") && (on("ua") || on("canc") || on("dl")) {
 			u += "/unsupported protocol scheme"
 		}
 		return &url.Error{Op: "Get", URL: u, Err: inner}
 	}
-	if on("cert") && !on("ua") && !on("canc") {
+	if on("cert") && !on("ua") && !on("canc") && !on("dl") {
 		return errors.New("x: certificate is not trusted; " + inner.Error())
 	}
 	return inner
@@ -307,11 +311,18 @@ func (s *seekBody) Close() error                        { s.closed.Add(1); retur
 type streamBody struct {
 	r      io.Reader
 	closed atomic.Int32
+	delay  time.Duration
+	chunk  int
 }
 
 func (s *streamBody) Read(p []byte) (int, error) {
-	if len(p) > 1000 {
-		p = p[:1000]
+	lim := 1000
+	if s.chunk > 0 {
+		lim = s.chunk
+		time.Sleep(s.delay)
+	}
+	if len(p) > lim {
+		p = p[:lim]
 	}
 	return s.r.Read(p)
 }
@@ -560,6 +571,10 @@ func adaptersHTTP(m map[string]string) string {
 		direct = seek
 	case "stream":
 		stream = &streamBody{r: bytes.NewReader(content)}
+		direct = stream
+	case "slowstream":
+		// a plain stream that is produced slowly (slower than a hedge delay): attempts may overlap with its production
+		stream = &streamBody{r: bytes.NewReader(content), delay: 8 * time.Millisecond, chunk: max(1, len(content)/6)}
 		direct = stream
 	default:
 		panic("body kind " + bs.kind)
@@ -879,22 +894,17 @@ func genAdapters(r *rand.Rand, n int, tier string, emit func(string) string) {
 		emit(fmt.Sprintf("adapters cls s %d", st))
 	}
 	newCase()
-	for mask := 0; mask < 64; mask++ {
+	for mask := 0; mask < 128; mask++ {
 		bit := func(i int) int { return (mask >> i) & 1 }
-		us, u, cert, redir, ua, canc := bit(0), bit(1), bit(2), bit(3), bit(4), bit(5)
-		if redir == 1 && (ua == 1 || canc == 1) {
-			continue // the redirect phrase must end the inner error's text
+		us, u, cert, redir, ua, canc, dl := bit(0), bit(1), bit(2), bit(3), bit(4), bit(5), bit(6)
+		special := ua + canc + dl // the inner error is one of these sentinels
+		if special > 1 || (redir == 1 && special > 0) {
+			continue // the redirect phrase must end the inner error's text; one sentinel at a time
 		}
-		if ua == 1 && canc == 1 {
-			continue
-		}
-		if u == 0 && us == 1 && (ua == 1 || canc == 1) {
+		if u == 0 && (us == 1 || cert == 1) && special > 0 {
 			continue // a plain sentinel error cannot also carry the phrase
 		}
-		if u == 0 && cert == 1 && (ua == 1 || canc == 1) {
-			continue
-		}
-		emit(fmt.Sprintf("adapters cls e us=%d url=%d cert=%d redir=%d ua=%d canc=%d", us, u, cert, redir, ua, canc))
+		emit(fmt.Sprintf("adapters cls e us=%d url=%d cert=%d redir=%d ua=%d canc=%d dl=%d", us, u, cert, redir, ua, canc, dl))
 	}
 	newCase()
 	hdrs := []string{"none", "hdr:0", "hdr:1", "hdr:7", "hdr:120", "hdr:-1", "hdr:-5", "hdr:+3", "hdr:%203", "hdr:3%20", "hdr:abc", "hdr:1.5", "hdr:1_0", "hdr:0x10",
@@ -995,7 +1005,7 @@ func genAdapters(r *rand.Rand, n int, tier string, emit func(string) string) {
 			emit(fmt.Sprintf("adapters http entry=%s body=%s:%d rctx=%s ectx=%s stack=rp%d,tos srv=%s", pick(r, "rt", "req"), pick(r, "buf", "seek", "stream", "none"), pick(r, 0, 11, 4096),
 				pick(r, rctxs...), pick(r, ectxs...), 1+r.Intn(3), strings.Join(els, ";")))
 		case 1:
-			bk := pick(r, "buf", "rdr", "str", "stream", "nobody")
+			bk := pick(r, "buf", "rdr", "str", "stream", "nobody", "slowstream", "slowstream")
 			emit(fmt.Sprintf("adapters http entry=%s body=%s:%d rctx=%s ectx=%s stack=%s srv=gate200bx;200bx", pick(r, "rt", "req"), bk, pick(r, 1, 1000, 70000),
 				pick(r, rctxs...), pick(r, ectxs...), pick(r, "hps", "rp1,hps", "hps,to")))
 		case 2:
